@@ -73,4 +73,9 @@ PROPS["C14"] = dict(jobs=None, obl=None, bounded="c14", level="other", design="4
 PROPS["C15"] = dict(jobs=None, obl=None, bounded="c15", level="other", design="4 C01/C15",
                     technique="bounded stand-in: 7 failure points x re-assignment style x one/two failures x follow-up edits; model after recovery vs before the failure (values, inputs, graph links) and vs a fresh build after a further edit")
 
+PROPS["C05"] = dict(jobs=None, obl=None, bounded="c05", level="other", design="4 C05/C06",
+                    technique="bounded stand-in: dated simulations (numeric / link / list / mixed / invalid / failing change lists x 6 dates x toggle sequences) on real systems; identities, values, links, reverse links and graph edge sets compared with the baseline")
+PROPS["C06"] = dict(jobs=None, obl=None, bounded="c06", level="other", design="4 C05/C06",
+                    technique="bounded stand-in: first-hour simulation vs really applying the changes on a twin system; no simulated hour before the date; twins paired both ways; bad dates refused")
+
 NOT_BUILT = {}
